@@ -56,6 +56,7 @@ func cmdRun(args []string) {
 	wall := fs.Duration("wall", 10*time.Minute, "wall budget")
 	sched := fs.Bool("schedule", false, "schedule mode")
 	mapOrder := fs.Bool("map-order", false, "map order mode")
+	mapOrderFilter := fs.String("map-order-filter", "", "map order mode only inside functions whose name contains this")
 	preempt := fs.Int("preempt", 2, "preemption bound")
 	race := fs.Bool("race", false, "race detection")
 	poolDirty := fs.Bool("pool-dirty", false, "sync.Pool.Get may return a previously Put object")
@@ -71,7 +72,7 @@ func cmdRun(args []string) {
 		fatalf("load: %v", err)
 	}
 	cfg := RunConfig{Harness: *harness, Pkg: pkgPath, Params: params, Solver: parseSolverKind(*solver), TimeoutMS: *timeout,
-		MaxSteps: *maxSteps, MaxPaths: *maxPaths, WallBudget: *wall, Workers: *workers, ScheduleMode: *sched, MapOrderMode: *mapOrder,
+		MaxSteps: *maxSteps, MaxPaths: *maxPaths, WallBudget: *wall, Workers: *workers, ScheduleMode: *sched, MapOrderMode: *mapOrder, MapOrderFilter: *mapOrderFilter,
 		PreemptBound: *preempt, Race: *race, PoolDirty: *poolDirty, Debug: *debug, NoByteDom: *nobd, XCheck: *xcheck}
 	hr := explore(ld, cfg)
 	printResult(hr)
